@@ -110,11 +110,12 @@ CLAIMS = {
              "MULT_COMMENT token per template line, the first 11 turns of the registry loop are IsComment matches on which "
              "CheckHeader runs, and no INVALID_HEADER is emitted at any later turn (C13_file_accept; hypothesis: the engine oracle "
              "agrees with the token-level turn where the translated primaries decide it - compared on every run).  The REJECT "
-             "direction is proved at file level too (text -> tokenizer model -> turns -> generated machine) for Hm1, Hm2, Hm3, "
-             "Hm4, Hm6, Hm7 and Hm8, for any following text that begins with an empty line or whose first item is a token and "
+             "direction is proved at file level too (text -> tokenizer model -> turns -> generated machine) for ALL of Hm1..Hm8 "
+             "(Hm5 through the multi-line block-comment lemma C13_block_comment_then_text), for any following text that begins with an empty line or whose first item is a token and "
              "that does not begin with /*, under the same oracle hypothesis and the hypothesis that the statement after the "
-             "leading comments is recognised (C13_file_reject_*); Hm5, a following column-1 block comment and a first item that "
-             "is not a token remain trace-level with file->trace compared on every run.  Recorded "
+             "leading comments is recognised (C13_file_reject_*); a following column-1 block comment, a first item that "
+             "is not a token and fields holding di/trigraph pairs, backslash, ? or tab remain trace-level with file->trace "
+             "compared on every run.  Recorded "
              "findings are refuted by witness.  Correspondence: the generated state machine replayed in Coq "
              "on events recorded from CheckHeader.run, the regex model vs the source's compiled pattern, the template vs the "
              "repository's sample header; search: field sets x mutations x bodies on the implementation, several-file runs in "
@@ -127,26 +128,35 @@ CLAIMS = {
         text="Theorems: for every replacement accepted by replace_ok (same length, newline and tab positions kept, no backslash, own "
              "quote, ? % : and no / in block comments) every observation form that the rules apply to a token's spelling is "
              "unchanged; line-comment and string bodies of such characters lex to the value extended character by character "
-             "with identical columns (partial: block-comment and char loops, whole-file composition are tested).  The list of "
+             "with identical columns.  FILE level (C17_comment_replace_file_obs, Proofs/LexPrefix.v): for every file <prefix of "
+             "blanks, identifiers, keywords, one-character operators, brackets and decimal constants satisfying the decidable "
+             "lexs_ok> followed by a // comment up to the line end, replacing the comment text by admissible text of the same "
+             "length leaves every other lexeme, the final lexer state and every covered observation unchanged; for other "
+             "prefixes the _partial theorem (tokens from the edit site on proved equal, C17_file_compose; tokens in front "
+             "assumed equal) plus the tested lexer comparison apply; block-comment and char loops are tested.  The list of "
              "observation forms is tied to the code: every syntactic read of a token's spelling in rules/*.py, context.py, "
              "registry.py, scope.py, errors.py is regenerated on every run (fail-closed taint analysis) and proved covered by the "
              "reviewed forms (a static analysis, trusted).  Refuted by witness: di/trigraph text inside comments (known "
-             "finding).  Search: comments and literals of conforming/violating programs replaced by code-like text, complete "
-             "diagnostics compared.",
+             "finding).  Search: comments and literals (strings on every directive line but a genuine #include) of "
+             "conforming/violating programs replaced by code-like text, complete diagnostics compared.",
         ref="DESIGN.md 4.17", technique="Rocq proof (observation invariance + lexer loop lemmas) over a value-read table regenerated from source + metamorphic search",
-        note=NOTE + "Rests on the static value-read table (cannot see getattr tricks). Whole-file simulation is tested only."),
+        note=NOTE + "Rests on the static value-read table (cannot see getattr tricks). Whole-file simulation is proved for simple-lexeme prefixes and // comments, tested otherwise."),
     "C18": dict(
         text="Theorems: for every renaming accepted by rename_ok (same length, number of capitals, lower-case presence, isupper, the "
              "five prefixes; injective on the names of the file; never to or from a keyword, a special spelling or the guard "
              "symbol) every observation form the rules apply to identifier spellings is unchanged, and an admissible renaming is "
              "injective; the lexer model turns an identifier lexeme into one token spanning exactly it at the same position, and "
-             "two same-length non-keyword lexemes give the same token type, position and following state (partial: the "
-             "whole-file token simulation is tested).  Ties re-proved on every run over tables regenerated from the source: "
+             "two same-length non-keyword lexemes give the same token type, position and following state.  FILE level "
+             "(C18_rename_file_obs, Proofs/LexPrefix.v): for every file <simple-lexeme prefix satisfying the decidable lexs_ok> "
+             "<identifier at an ident_site> <rest>, renaming that lexeme under pair_ok leaves every other lexeme with its "
+             "positions and every covered observation unchanged; a whole-file consistent renaming is the tested iteration of "
+             "it, and for other prefixes the _partial theorem (prefix-run assumption) applies.  Ties re-proved on every run over tables regenerated from the source: "
              "every spelling read is covered, every literal a spelling is compared with is reviewed, the keyword table is the "
-             "reviewed one.  Search: consistent renamings (incl. near-keywords) of conforming/violating programs, complete "
-             "diagnostics and token streams compared.",
+             "reviewed one.  Search: consistent renamings (incl. near-keywords, and spellings derived from the reviewed special-spelling "
+             "and keyword lists - substrings, one-character extensions, case variants - in eight identifier roles) of "
+             "conforming/violating programs, complete diagnostics and token streams compared.",
         ref="DESIGN.md 4.18", technique="Rocq proof (observation invariance, identifier lexing lemma) over tables regenerated from source + metamorphic search",
-        note=NOTE + "Rests on the static value-read table (trusted). Whole-file simulation is tested only."),
+        note=NOTE + "Rests on the static value-read table (trusted). Whole-file simulation is proved for one lexeme behind a simple-lexeme prefix, tested otherwise."),
     "C14": dict(
         text="Theorems (all base names whose File.type is .h, all comment/blank prefixes and suffixes, all bodies with properly nested "
              "conditionals, any statement trace): the correct guard (guard_of base = ASCII upper-casing and . -> _, proved equal to "
@@ -158,10 +168,13 @@ CLAIMS = {
              "define Y\\n` followed by any text the tokenizer accepts is lexed into exactly the tokens of the two directive "
              "lines plus the shifted tokens of the rest, for all non-keyword identifiers X, Y (guard_of base is one for every "
              "base starting with a letter, _ or .); the views prot_run takes of these lines and of `#endif` are those of the "
-             "abstract statements; hence accept, G1, G2, G3, G6 at file level (C14_file_*_partial) for every oracle that "
-             "recognises the directive lines as IsPreprocessorStatement and whose turns over the body are simulated by a "
-             "balanced abstract body - hypotheses that the per-statement correspondence checks on every run; G4, G5 stay "
-             "trace-level.  Correspondence: the real statement sequence, "
+             "abstract statements; IsPreprocessorStatement's matcher is translated for ifndef/define/endif (Gen/IsPreproc, fail "
+             "closed) and proved to return (True, 5/6/3) on the three token lines for every symbol and continuation, and being "
+             "the first primary tried no assumption about other primaries is needed there; hence accept, G1, G2, G3, G6 at file "
+             "level (C14_file_*_induced_partial) assuming only that the oracle agrees with the translated primaries where they "
+             "decide (induced_g) and that the turns over the body are simulated by a balanced abstract body - both checked on "
+             "every run by the per-statement correspondence and by running the translated matcher on every recorded "
+             "preprocessor statement; G4, G5 stay trace-level.  Correspondence: the real statement sequence, "
              "preprocessor state and emitted codes after every statement vs the model run inside Coq on the abstracted trace.  "
              "Search: 42 header + guard + body x base names over [a-z0-9_.] x {correct, G1..G8} x placements on the implementation.",
         ref="DESIGN.md 4.14", technique="Rocq proof over a check translated from source + per-statement state correspondence + mutation search",
@@ -219,20 +232,23 @@ CLAIMS = {
         ref="DESIGN.md 4.1", technique="Rocq proof (composition of header, guard, lexer-line and verdict theorems over an emitter table from source) + conforming-program search",
         note=NOTE + "Partial: 28 checks are only searched; which primaries matched (the history) is a hypothesis; programs are generated by the Python renderer, not a Coq AST."),
     "C02": dict(
-        text="PARTIAL.  29 of the 84 catalogue operators are proved for EVERY token list and context view, about Gallina functions "
-             "regenerated statement by statement from the current source of 10 checks on every run (fail closed): the 7 checks "
-             "without dependencies (CheckTernary, CheckLineLen, CheckLabel, CheckEmptyLine, CheckLineIndent, CheckSpacing, "
-             "CheckManyInstructions) plus CheckExpressionStatement, CheckControlStatement and the FORBIDDEN_<type> slice of "
-             "CheckUtypeDeclaration: S01-S08, S11, T01-T04, O07, L01, W01, W03-W10, W12-W15, W17 - the pattern the operator creates "
-             "makes the translated check emit the expected code on that line (iff / exact-value forms for S05, L01, S07/S08, "
-             "W06/W07; _given_history / _given_trace where the history or the matching primary is a hypothesis); S05 and L01 are "
-             "lifted to files over the generic registry-loop model (C07 tiling + run order from Gen.Registry).  All 10 models are "
-             "replayed against recorded invocations on every run (tokens actually read, context fields, diagnostics, exception "
-             "class).  The other 55 operators are TESTED: the property itself is evaluated on the implementation for conforming "
-             "programs (incl. programs sitting on a limit and multi-dot file names) x all operators x structurally varied sites.  "
-             "Ten genuine misses are recorded with narrow site predicates.",
-        ref="DESIGN.md 4.2", technique="Rocq proof over check bodies translated from source (29 operators) + invocation-level correspondence + catalogue search (84 operators)",
-        note=NOTE + "Partial: 55 operators tested only; primaries are an oracle at file level; exit status is C04's theorem."),
+        text="PARTIAL.  38 of the 84 catalogue operators have machine-checked theorems (S01-S08, S11, L01, W01, W03-W10, W12-W15, "
+             "W17, T01-T04, O07, N01, N02, K01-K03, D04, F03, F04, F05), stated for EVERY token list and context view over "
+             "Gallina functions regenerated statement by statement from the current source of 12 checks on every run (fail "
+             "closed: CheckTernary, LineLen, Label, ManyInstructions, EmptyLine, LineIndent, Spacing, the FORBIDDEN_<type> slice "
+             "of UtypeDeclaration, ExpressionStatement, ControlStatement, IdentifierName, Comment) and over the scope/counter "
+             "models of the four limits: the pattern the operator creates makes the translated check emit the expected code on "
+             "that line (iff / exact-value forms where stated; _given_history / _given_trace where the history or the matching "
+             "primary is a hypothesis); S05, L01, K03, F04 are lifted to files over the generic registry-loop model.  Every "
+             "recorded invocation of the 12 checks is replayed inside Coq (token window, history, scope fields, emissions, "
+             "exception class) and the scope/counter traces are replayed on the limit programs and their one-past-the-limit "
+             "edits.  The other 46 operators (5 of them only as known findings) are TESTED: the property itself is evaluated "
+             "on the implementation for conforming programs (incl. programs sitting on a limit and multi-dot file names) x all "
+             "operators x structurally varied sites; the forbidden constructs (ternary, for, switch, goto, label) are placed "
+             "at sites of every statement kind a primary can match.  Ten genuine misses are recorded with narrow site "
+             "predicates; four proved operators (W01, W05, N01, N02) coexist with listed findings outside the model's hypotheses.",
+        ref="DESIGN.md 4.2", technique="Rocq proof over check bodies translated from source (38 operators) + invocation-level correspondence + catalogue search (84 operators)",
+        note=NOTE + "Partial: 46 operators tested only; primaries are an oracle at file level; exit status is C04's theorem."),
     "C19": dict(
         text="PARTIAL.  Theorems: a prefix of complete lines shifts the true position of every raw offset by its number of lines at "
              "the same column (all prefixes, texts, offsets), hence corresponding tokens of src and P ++ src differ by exactly that "
@@ -281,9 +297,10 @@ CLAIMS = {
              "shown by the exhaustive differential run, not proved.  (b) Theorems for ANY rule set whose matching primaries "
              "consume >= 1 token: the registry loop terminates and ends Ok, with the controlled fatal error, or with an exception a "
              "rule itself raised.  The loop model is replayed against the recorded events of every explored run.  Search: "
-             "conforming programs, token prefixes, 1-2 token edits under a wall-clock limit; exceptions classified by class + "
+             "conforming programs, token prefixes, 1-2 token edits under a CPU-time limit; exceptions classified by class + "
              "innermost frame.  (c) For the code whose model is regenerated from the source on every run (CheckTernary, CheckLineLen, CheckLabel, "
-             "CheckManyInstructions, CheckEmptyLine, CheckLineIndent, CheckSpacing, the parameter counter of CheckFuncDeclaration "
+             "CheckManyInstructions, CheckEmptyLine, CheckLineIndent, CheckSpacing, CheckExpressionStatement, CheckControlStatement "
+             "(Ok or Hang: the outcome theorem that predicted the check_nest loop), CheckIdentifierName, the parameter counter of CheckFuncDeclaration "
              "with Context.skip_nest, CheckLineCount / CheckFunctionsCount / the variable counter, the scope bookkeeping of the "
              "registry loop) it is proved for EVERY token list and context that it ends normally under the invariants the "
              "registry guarantees (tokens not exhausted, matched primary already in the history, tkn_scope >= 0, scope chain "
